@@ -14,6 +14,10 @@ From Tevec Require Import Base.Num Base.XR Spec.Stats Spec.Stats2 Model.SortCmp 
      Proofs.OrderXR Proofs.Quantile Proofs.QuantileMono Proofs.Partition Proofs.Rank Proofs.AggXR
      Proofs.HalfLife Proofs.Composite Proofs.Spearman Proofs.HalfLifeExec.
 From Tevec Require Import Model.NullView Proofs.EncRank Proofs.Composite2 Proofs.HalfLifeProbes.
+From Coq Require Floats.
+From Tevec Require Import Base.F64 Spec.ExtremaOrd Proofs.CmpOrdFloat Proofs.Audit20 Proofs.Audit20Float.
+From Tevec Require Run.RunC12 Run.RunC20.
+From Tevec Require Import Proofs.AggGeneric.
 Import ListNotations.
 Local Open Scope R_scope.
 
@@ -739,6 +743,401 @@ Proof.
   - apply (autocorr_all_valid_defined_iff 3 [1; 2; 4]%R 1). left. cbn. lia.
 Qed.
 
+
+(* ===================================================================================================================== *)
+(* ================================ AUDIT (notes/C20.md, "Audit matrix"): Proofs/Audit20.v, Proofs/Audit20Float.v ========= *)
+(* ===================================================================================================================== *)
+Local Notation float := PrimFloat.float (only parsing).
+(* (A1) winsorize at EVERY carrier A (so also Coq's binary64 `float`), every dictionary, method and parameter — omitted,
+        NaN, out of range: the result is a panic propagated from the order-statistic selection, the Err of vquantile
+        (Quantile method only), the cast input itself, or ONE map of vclip's element function
+        clipA lo hi x = if x null then x else if lo non-null && x < lo then lo else if hi non-null && hi < x then hi else x *)
+Theorem C20_winsorize_shape :
+  forall {A : Type} {NA : Num A} {NF : NumFloor A} {T : Type} {DT : IsNone T A} (m : wmethod) (p : option A) (xs : list T),
+    (exists k, winsorize m p xs = Panic k) \/
+    (m = WQuantile /\ winsorize m p xs = Ok None) \/
+    winsorize m p xs = Ok (Some (iter_cast xs)) \/
+    (exists lo hi, winsorize m p xs = Ok (Some (map (clipA lo hi) (iter_cast xs)))).
+Proof. intros A NA NF T DT. exact winsorize_shape. Qed.
+
+(* "one value per input", "what must not change": WHENEVER a series is returned (no scope hypothesis): same length, same
+   order; the null pattern of the cast input is kept; every output is the cast input itself — bit for bit — or, for a
+   non-null input only, one of two bounds (the same two for the whole series) that it exceeded *)
+Theorem C20_winsorize_returns :
+  forall {A : Type} {NA : Num A} {NF : NumFloor A} {T : Type} {DT : IsNone T A} (m : wmethod) (p : option A) (xs : list T) (r : list A),
+    winsorize m p xs = Ok (Some r) ->
+    length r = length xs /\
+    exists lo hi, forall i x, nth_error xs i = Some x ->
+      exists y, nth_error r i = Some y /\ nisnan y = nisnan (tcast x) /\
+        (y = tcast x \/ (nisnan (tcast x) = false /\ ((nltb (tcast x) lo = true /\ y = lo) \/ (nltb hi (tcast x) = true /\ y = hi)))).
+Proof. intros A NA NF T DT. exact winsorize_returns. Qed.
+
+(* "keeps nulls null", every carrier whose NaN is a NaN: a null input position holds the carrier's NaN *)
+Theorem C20_winsorize_keeps_nulls :
+  forall {A : Type} {NA : Num A} {NF : NumFloor A} {T : Type} {DT : IsNone T A} (m : wmethod) (p : option A) (xs : list T) (r : list A),
+    nisnan (nnan : A) = true -> winsorize m p xs = Ok (Some r) ->
+    forall i x, nth_error xs i = Some x -> Num.is_none x = true -> nth_error r i = Some nnan.
+Proof. intros A NA NF T DT. exact winsorize_keeps_nulls. Qed.
+
+(* the Sigma method has no failing input: never an Err, never a panic, at any carrier *)
+Theorem C20_winsorize_sigma_never_fails :
+  forall {A : Type} {NA : Num A} {NF : NumFloor A} {T : Type} {DT : IsNone T A} (p : option A) (xs : list T),
+    exists r, winsorize WSigma p xs = Ok (Some r).
+Proof. intros A NA NF T DT. exact winsorize_sigma_returns. Qed.
+
+(* "unchanged inside", any carrier, no order law needed: a value not below a non-null lower bound and not above a non-null
+   upper bound is returned as it is *)
+Theorem C20_clip_inside_unchanged :
+  forall {A : Type} {NA : Num A} (lo hi x : A),
+    (nisnan lo = false -> nltb x lo = false) -> (nisnan hi = false -> nltb hi x = false) -> clipA lo hi x = x.
+Proof. intros A NA. exact clipA_inside. Qed.
+
+(* (A2) ORDERED carriers (Spec/ExtremaOrd.v: `<` a strict weak order on the non-NaN elements; binary64 satisfies it):
+        bounds not reversed (a NaN bound is no bound) -> the result is inside the bounds, clipping is idempotent and ORDER
+        PRESERVING for the carrier's own comparison *)
+Theorem C20_clip_ordered_carrier :
+  forall {A : Type} {NA : Num A}, OrdLaws A -> forall (lo hi : A),
+    (nisnan lo = false -> nisnan hi = false -> nltb hi lo = false) ->
+    (forall x, clipA lo hi (clipA lo hi x) = clipA lo hi x) /\
+    (forall x, nisnan x = false ->
+       (nisnan lo = false -> nltb (clipA lo hi x) lo = false) /\ (nisnan hi = false -> nltb hi (clipA lo hi x) = false)) /\
+    (forall x y, nisnan x = false -> nisnan y = false -> nltb y x = false -> nltb (clipA lo hi y) (clipA lo hi x) = false).
+Proof.
+  intros A NA OL lo hi Hlh. split; [intros x; apply (clipA_idempotent OL); exact Hlh|].
+  split; [intros x Hx; apply (clipA_contained OL); assumption|intros x y Hx Hy Hxy; apply (clipA_monotone OL); assumption].
+Qed.
+
+Theorem C20_winsorize_order_preserving_ordered :
+  forall {A : Type} {NA : Num A} {NF : NumFloor A} {T : Type} {DT : IsNone T A}, OrdLaws A ->
+  forall (m : wmethod) (p : option A) (xs : list T) (r : list A),
+    winsorize m p xs = Ok (Some r) ->
+    r = iter_cast xs \/
+    exists lo hi, r = map (clipA lo hi) (iter_cast xs) /\
+      ((nisnan lo = false -> nisnan hi = false -> nltb hi lo = false) ->
+       forall i j x x', nth_error xs i = Some x -> nth_error xs j = Some x' ->
+         nisnan (tcast x) = false -> nisnan (tcast x') = false -> nltb (tcast x') (tcast x) = false ->
+         exists y y', nth_error r i = Some y /\ nth_error r j = Some y' /\ nltb y' y = false /\
+                      (nisnan lo = false -> nltb y lo = false) /\ (nisnan hi = false -> nltb hi y = false)).
+Proof. intros A NA NF T DT OL. exact (winsorize_order_preserving_ordered OL). Qed.
+
+(* (A3) binary64, every element type (any null dictionary over Coq's `float`: f64, Option<f64>, the i32 rendering), with
+        the floor / ceil the run executes: length; nulls -> NaN; NaN-ness fixed; each value bit-identical or on a bound; and
+        when the two bounds are not reversed: order preserved (PrimFloat.ltb) and every non-NaN output inside the bounds *)
+Theorem C20_winsorize_binary64 :
+  forall {T : Type} {DT : IsNone T float} (m : wmethod) (p : option float) (xs : list T) (r : list float),
+    winsorize (NF := Run.RunC12.NumFloorF64) m p xs = Ok (Some r) ->
+    length r = length xs /\
+    (forall i x, nth_error xs i = Some x -> Num.is_none x = true -> nth_error r i = Some PrimFloat.nan) /\
+    exists lo hi,
+      (forall i x, nth_error xs i = Some x ->
+         exists y, nth_error r i = Some y /\ PrimFloat.is_nan y = PrimFloat.is_nan (tcast x) /\
+           (y = tcast x \/ (PrimFloat.is_nan (tcast x) = false /\ ((PrimFloat.ltb (tcast x) lo = true /\ y = lo) \/ (PrimFloat.ltb hi (tcast x) = true /\ y = hi))))) /\
+      ((PrimFloat.is_nan lo = false -> PrimFloat.is_nan hi = false -> PrimFloat.ltb hi lo = false) ->
+       forall i j x x', nth_error xs i = Some x -> nth_error xs j = Some x' ->
+         PrimFloat.is_nan (tcast x) = false -> PrimFloat.is_nan (tcast x') = false -> PrimFloat.ltb (tcast x') (tcast x) = false ->
+         exists y y', nth_error r i = Some y /\ nth_error r j = Some y' /\ PrimFloat.ltb y' y = false /\
+                      (PrimFloat.is_nan lo = false -> PrimFloat.ltb y lo = false) /\ (PrimFloat.is_nan hi = false -> PrimFloat.ltb hi y = false)).
+Proof. intros T DT. exact winsorize_binary64. Qed.
+
+(* (A4) option R, the parameters the quantifier leaves out.  EVERY method, EVERY parameter (omitted, NaN, any real): never a
+        panic; an Err exactly for the Quantile method with q NaN or outside [0, 1]; otherwise the input or one clip_series *)
+Local Open Scope R_scope.
+Theorem C20_winsorize_every_parameter :
+  forall (m : wmethod) (p : option XR) (xs : list XR),
+    let rejected := m = WQuantile /\ (weff m p = None \/ exists q, weff m p = Some q /\ ~ 0 <= q <= 1) in
+    (rejected /\ winsorize (DT := IsNoneXR) m p xs = Ok None) \/
+    (~ rejected /\ exists r, winsorize (DT := IsNoneXR) m p xs = Ok (Some r) /\
+                             (r = xs \/ exists lo hi, r = clip_series lo hi xs)).
+Proof. exact winsorize_total_xr. Qed.
+
+(* the closed forms hold beyond the quantifier: Quantile for every 0 <= q <= 1 (bounds ordered for q <= 1/2, REVERSED for
+   q >= 1/2), Median and Sigma for every real multiplier (bounds reversed for k <= 0) and for k = NaN (series unchanged) *)
+Theorem C20_winsorize_quantile_any_q :
+  forall (xs : list XR) (q : R) (s : list R),
+    0 <= q <= 1 -> Sorted Rle s -> Permutation s (valid xs) -> s <> [] ->
+    let lo := quantile_spec s q Linear in let hi := quantile_spec s (1 - q) Linear in
+    winsorize (DT := IsNoneXR) WQuantile (Some (Some q)) xs = Ok (Some (clip_series lo hi xs)) /\
+    (q <= 1 / 2 -> lo <= hi) /\ (1 / 2 <= q -> hi <= lo).
+Proof.
+  intros xs q s Hq Hs HP Hne lo hi. split; [apply winsorize_quantile; assumption|].
+  split; intros H; [apply quantile_bounds_ordered|apply quantile_bounds_reversed]; try assumption; lra.
+Qed.
+
+Theorem C20_winsorize_median_any_k :
+  forall (xs : list XR) (k : XR) (s s' : list R),
+    Sorted Rle s -> Permutation s (valid xs) -> s <> [] ->
+    let med := quantile_spec s (1 / 2) Linear in
+    Sorted Rle s' -> Permutation s' (map (fun x => Rabs (x - med)) (valid xs)) ->
+    let mad := quantile_spec s' (1 / 2) Linear in
+    winsorize (DT := IsNoneXR) WMedian (Some k) xs
+      = Ok (Some (match k with Some k => clip_series (med - k * mad) (med + k * mad) xs | None => xs end))
+    /\ 0 <= mad /\ (forall k', k = Some k' -> k' <= 0 -> med + k' * mad <= med - k' * mad).
+Proof.
+  intros xs k s s' Hs HP Hne med Hs' HP' mad.
+  assert (Hmad : 0 <= mad).
+  { apply (mad_nonneg s' (valid xs) med); try assumption.
+    intros ->. apply Permutation_nil in HP'. apply map_eq_nil in HP'. rewrite HP' in HP.
+    apply Permutation_sym, Permutation_nil in HP. contradiction. }
+  split; [apply winsorize_median_any; assumption|]. split; [exact Hmad|].
+  intros k' _ Hk'. apply median_bounds_reversed; assumption.
+Qed.
+
+Theorem C20_winsorize_sigma_any_k :
+  forall (xs : list XR) (k : XR),
+    let V := valid xs in
+    winsorize (DT := IsNoneXR) WSigma (Some k) xs
+      = Ok (Some (match k with
+                  | None => xs
+                  | Some k => if (length V <? 2)%nat then xs
+                              else if Rle_dec (popvarR V) EPS then xs
+                              else clip_series (meanR V - k * sqrt (samplevarR V)) (meanR V + k * sqrt (samplevarR V)) xs
+                  end))
+    /\ (forall k', k = Some k' -> k' <= 0 -> meanR V + k' * sqrt (samplevarR V) <= meanR V - k' * sqrt (samplevarR V)).
+Proof.
+  intros xs k V. split; [destruct k as [k|]; [apply winsorize_sigma|apply winsorize_sigma_nan]|].
+  intros k' _ Hk'. apply sigma_bounds_reversed. exact Hk'.
+Qed.
+
+Theorem C20_winsorize_nan_parameter :
+  forall (m : wmethod) (xs : list XR),
+    winsorize (DT := IsNoneXR) m (Some None) xs = match m with WQuantile => Ok None | _ => Ok (Some xs) end.
+Proof.
+  intros m xs. destruct m; [apply winsorize_quantile_nan| |apply winsorize_sigma_nan].
+  destruct (winsorize_total_xr WMedian (Some None) xs) as [((E & _) & _)|(_ & r & Hr & Hc)]; [discriminate|].
+  destruct (sorted_exists false (valid xs)) as (s & Hs & HP).
+  destruct (list_eq_dec Req_EM_T (valid xs) []) as [Hv|Hv]; [apply winsorize_median_all_null_any; exact Hv|].
+  assert (Hne : s <> []) by (intros ->; apply Permutation_nil in HP; contradiction).
+  destruct (sorted_exists false (map (fun x => Rabs (x - quantile_spec s (1 / 2) Linear)) (valid xs))) as (s' & Hs' & HP').
+  exact (winsorize_median_any xs None s s' Hs HP Hne Hs' HP').
+Qed.
+
+(* just outside the quantifier (q in (1/2, 1], k < 0) the code still returns a series but it is NOT a clip to an interval:
+   the bounds are reversed, every valid value below the first bound moves UP onto it, every other one onto the second *)
+Theorem C20_winsorize_reversed_scope :
+  forall (m : wmethod) (p : R) (xs : list XR),
+    wparam_reversed m p ->
+    exists r, winsorize (DT := IsNoneXR) m (Some (Some p)) xs = Ok (Some r) /\
+              (r = xs \/ exists lo hi, hi <= lo /\ r = clip_series lo hi xs /\
+                                       r = map (option_map (fun x => if Rlt_dec x lo then lo else hi)) xs).
+Proof. exact winsorize_reversed_scope. Qed.
+
+(* ... so the scope hypothesis of C20_winsorize_order_preserving is EXACTLY needed: at q = 1 and at k = -1 the series
+   [1; 2; 3] becomes [3; 3; 1], and 2 <= 3 is mapped to 3 > 1 *)
+Theorem C20_winsorize_scope_needed :
+  winsorize (DT := IsNoneXR) WQuantile (Some (Some 1)) [Some 1; Some 2; Some 3] = Ok (Some [Some 3; Some 3; Some 1]) /\
+  winsorize (DT := IsNoneXR) WMedian (Some (Some (-1))) [Some 1; Some 2; Some 3] = Ok (Some [Some 3; Some 3; Some 1]) /\
+  ~ (forall i j x x' y y', nth_error [Some 1; Some 2; Some 3] i = Some (Some x) ->
+       nth_error [Some 1; Some 2; Some 3] j = Some (Some x') ->
+       nth_error [Some 3; Some 3; Some 1] i = Some (Some y) -> nth_error [Some 3; Some 3; Some 1] j = Some (Some y') ->
+       x <= x' -> y <= y').
+Proof.
+  split; [exact winsorize_quantile_q1_witness|]. split; [exact winsorize_median_kneg_witness|exact order_broken_331].
+Qed.
+Local Close Scope R_scope.
+
+(* (A5) half_life over ANY oracle (len >= 1): never out of fuel; either the oracle fails somewhere on the doubling sequence
+        1, 2, 4, .. up to the first power of two >= len, and then the result is a lag in range; or it is true on all of it,
+        and then `n - last_n` underflows.  So "the test is false for lags >= len" is needed at exactly one lag. *)
+Theorem C20_half_life_any_oracle :
+  forall (above : nat -> bool) (len : nat), 1 <= len ->
+    (exists j, first_fail above j /\ prev_pow j < len /\
+       exists r, half_life above len = Some (Ok r) /\ r <= len - 1 /\ (r = 0 <-> len < 2)) \/
+    ((forall t, prev_pow t < len -> above (2 ^ t) = true) /\ half_life above len = Some (Panic Underflow)).
+Proof. exact half_life_any_oracle. Qed.
+
+Theorem C20_half_life_panics_iff :
+  forall (above : nat -> bool) (len : nat), 1 <= len ->
+    (half_life above len = Some (Panic Underflow) <-> forall t, prev_pow t < len -> above (2 ^ t) = true).
+Proof. exact half_life_panics_iff. Qed.
+
+Theorem C20_half_life_oracle_hypothesis_needed :
+  exists (above : nat -> bool) (len : nat), 1 <= len /\ half_life above len = Some (Panic Underflow).
+Proof. exists (fun _ => true), 3. split; [lia|exact half_life_always_true_panics]. Qed.
+
+(* the threshold theorem for EVERY L (L = 0, "never above", behaves as L = 1) *)
+Theorem C20_half_life_oracle_threshold_any_L :
+  forall (above : nat -> bool) (len L : nat),
+    1 <= len -> (forall k, len <= k -> above k = false) ->
+    (forall k, 1 <= k -> above k = (k <? L)) ->
+    half_life above len = Some (Ok (Nat.min (Nat.max L 1) (len - 1))).
+Proof. intros above len L Hlen Hout Hthr. apply half_life_threshold_any_L; assumption. Qed.
+
+(* (A6) the executable half_life at EVERY carrier (binary64 included) and every element type whose T::none() is a null:
+        totality needs only that the carrier's NaN tests as NaN *)
+Theorem C20_autocorr_beyond_length_any_carrier :
+  forall {A : Type} {NA : Num A} {T : Type} {DT : IsNone T A} (mp : nat) (nv : T) (xs : list T) (lag : nat),
+    nisnan (nnan : A) = true -> Num.is_none nv = true -> length xs <= lag ->
+    autocorr (DT := DT) mp nv xs lag = nnan /\ above_half (DT := DT) mp nv xs lag = false.
+Proof.
+  intros A NA T DT mp nv xs lag Hnan Hnv H. split; [apply autocorr_out_any|apply above_half_out_any]; assumption.
+Qed.
+
+Theorem C20_half_life_total_any_carrier :
+  forall {A : Type} {NA : Num A} {T : Type} {DT : IsNone T A} (dm : NullDict T A) (mp : option nat) (nv : T) (xs : list T),
+    nisnan (nnan : A) = true -> MapOps.none dm = Ok nv -> Num.is_none nv = true ->
+    exists r, half_life_exec (DT := DT) dm mp xs = Some (Ok r) /\
+              r <= length xs - 1 /\ (r = 0 <-> length xs < 2).
+Proof. intros A NA T DT dm mp nv xs Hnan. apply half_life_exec_total_any. exact Hnan. Qed.
+
+Theorem C20_half_life_threshold_any_carrier :
+  forall {A : Type} {NA : Num A} {T : Type} {DT : IsNone T A} (dm : NullDict T A) (mp : option nat) (nv : T) (xs : list T) (L : nat),
+    nisnan (nnan : A) = true -> MapOps.none dm = Ok nv -> Num.is_none nv = true -> xs <> [] ->
+    (forall k, 1 <= k -> above_half (DT := DT) (mp_default mp (length xs)) nv xs k = (k <? L)) ->
+    half_life_exec (DT := DT) dm mp xs = Some (Ok (Nat.min (Nat.max L 1) (length xs - 1))).
+Proof. intros A NA T DT dm mp nv xs L Hnan. apply half_life_exec_threshold_any. exact Hnan. Qed.
+
+Theorem C20_half_life_probe_sequence_any_carrier :
+  forall {A : Type} {NA : Num A} {T : Type} {DT : IsNone T A} (dm : NullDict T A) (mp : option nat) (nv : T) (xs : list T),
+    nisnan (nnan : A) = true -> MapOps.none dm = Ok nv -> Num.is_none nv = true -> xs <> [] ->
+    let len := length xs in
+    let ab := above_half (DT := DT) (mp_default mp len) nv xs in
+    exists j r,
+      first_fail ab j /\
+      half_life_exec (DT := DT) dm mp xs = Some (Ok r) /\
+      (let n := Nat.min (2 ^ j) (len - 1) in let last := prev_pow j in
+       half_life_tr ab len = (Some (Ok r), pows 0 (S j) ++ mids ab (n - last) n last) /\
+       Forall (fun m => last < m < n) (mids ab (n - last) n last)) /\
+      prev_pow j <= r <= Nat.min (2 ^ j) (len - 1) /\ (prev_pow j < len - 1 -> prev_pow j < r) /\
+      (r = len - 1 \/ (ab r = false /\ (r = 1 \/ ab (r - 1) = true))).
+Proof. intros A NA T DT dm mp nv xs Hnan. apply half_life_exec_probes_any. exact Hnan. Qed.
+
+Theorem C20_half_life_int_none_panics_any_carrier :
+  forall {A : Type} {NA : Num A} {T : Type} {DT : IsNone T A} (dm : NullDict T A) (mp : option nat) (k : panic_kind) (xs : list T),
+    MapOps.none dm = Panic k ->
+    half_life_exec (DT := DT) dm mp xs = if length xs =? 0 then Some (Ok 0) else Some (Panic k).
+Proof. intros A NA T DT dm mp k xs. apply half_life_exec_none_panics_any. Qed.
+
+(* binary64, on the three dictionaries the correspondence run executes (Run/RunC20.v: mF, mO, mN) *)
+Theorem C20_half_life_binary64 :
+  (forall (mp : option nat) (xs : list float),
+     exists r, half_life_exec (DT := IsNoneF64) Run.RunC20.mF mp xs = Some (Ok r) /\
+               r <= length xs - 1 /\ (r = 0 <-> length xs < 2)) /\
+  (forall (mp : option nat) (xs : list (option float)),
+     exists r, half_life_exec (DT := IsNoneOptF64) Run.RunC20.mO mp xs = Some (Ok r) /\
+               r <= length xs - 1 /\ (r = 0 <-> length xs < 2)) /\
+  (forall (mp : option nat) (xs : list float),
+     half_life_exec (DT := Run.RunC20.Dn20) Run.RunC20.mN mp xs
+     = if length xs =? 0 then Some (Ok 0) else Some (Panic OtherPanic)).
+Proof.
+  split; [exact half_life_binary64_f64|]. split; [exact half_life_binary64_opt|exact half_life_binary64_i32].
+Qed.
+
+(* (A7) vcorr, the Pearson arm (agg.rs:44): every carrier, every dictionary.  min_periods defaults to half the length of
+        the FIRST series; unequal lengths are zipped (the longer series is cut, the default is not recomputed) *)
+Theorem C20_vcorr_pearson_arm :
+  forall {A : Type} {NA : Num A} {T : Type} {DT : IsNone T A} {DX : IsNoneX T A} (mp : option nat) (xs ys : list T),
+    vcorr (DT := DT) (DX := DX) mp false xs ys
+    = Some (vcorr_pearson (DT := DT) (DT2 := DT) (@idA A) (mp_default mp (length xs)) xs ys).
+Proof. intros A NA T DT DX. exact vcorr_pearson_arm. Qed.
+
+Theorem C20_vcorr_pearson_arm_truncates :
+  forall {A : Type} {NA : Num A} {T : Type} {DT : IsNone T A} {DX : IsNoneX T A} (mp : option nat) (xs ys : list T),
+    let n := Nat.min (length xs) (length ys) in
+    vcorr (DT := DT) (DX := DX) mp false xs ys
+    = vcorr (DT := DT) (DX := DX) (Some (mp_default mp (length xs))) false (firstn n xs) (firstn n ys).
+Proof. intros A NA T DT DX. exact vcorr_pearson_arm_truncates. Qed.
+
+Local Open Scope R_scope.
+Theorem C20_vcorr_pearson_textbook :
+  forall (mp : option nat) (xs ys : list XR),
+    let P := rpairs (DT := IsNoneXR) (DT2 := IsNoneXR) (fun x : XR => x) xs ys in
+    vcorr (DT := IsNoneXR) (DX := IsNoneXXR) mp false xs ys
+    = Some (if (length P <? Nat.max (mp_default mp (length xs)) 2)%nat then None
+            else if Rlt_dec EPS (popvarR (xs_of P)) then
+                   (if Rlt_dec EPS (popvarR (ys_of P)) then Some (corrR P) else None)
+                 else None).
+Proof. exact vcorr_pearson_arm_textbook. Qed.
+
+Theorem C20_vcorr_pearson_textbook_opt :
+  forall (mp : option nat) (xs ys : list XR),
+    let P := rpairs (DT := IsNoneXR) (DT2 := IsNoneXR) (fun x : XR => x) xs ys in
+    vcorr (DT := DOpt) (DX := DXOpt) mp false (enc_opt xs) (enc_opt ys)
+    = Some (if (length P <? Nat.max (mp_default mp (length (enc_opt xs))) 2)%nat then None
+            else if Rlt_dec EPS (popvarR (xs_of P)) then
+                   (if Rlt_dec EPS (popvarR (ys_of P)) then Some (corrR P) else None)
+                 else None).
+Proof. intros mp xs ys. rewrite vcorr_opt, length_enc_opt. exact (vcorr_pearson_arm_textbook mp xs ys). Qed.
+
+Theorem C20_vcorr_pearson_textbook_i32 :
+  forall (mp : option nat) (xs ys : list Z),
+    let P := rpairs (DT := IsNoneXR) (DT2 := IsNoneXR) (fun x : XR => x) (cast_i32 xs) (cast_i32 ys) in
+    vcorr (DT := DInt) (DX := DXInt) mp false (cast_i32 xs) (cast_i32 ys)
+    = Some (if (length P <? Nat.max (mp_default mp (length xs)) 2)%nat then None
+            else if Rlt_dec EPS (popvarR (xs_of P)) then
+                   (if Rlt_dec EPS (popvarR (ys_of P)) then Some (corrR P) else None)
+                 else None).
+Proof.
+  intros mp xs ys. rewrite vcorr_i32, <- (length_cast_i32 xs). exact (vcorr_pearson_arm_textbook mp (cast_i32 xs) (cast_i32 ys)).
+Qed.
+
+(* (A8) the Option<f64> and i32 renderings of (A4), and the Sigma method on fewer than two valid elements (every carrier):
+        winsorize calls vmean_var(2), so that case is the `n < min_periods` branch — (NaN, NaN), series unchanged; the
+        `n < 2 -> (m1, NaN)` line of vmean_var (tea-core/src/agg.rs:340) is not reachable from winsorize *)
+Local Open Scope R_scope.
+Theorem C20_winsorize_every_parameter_opt :
+  forall (m : wmethod) (p : option XR) (xs : list XR),
+    let rejected := m = WQuantile /\ (weff m p = None \/ exists q, weff m p = Some q /\ ~ 0 <= q <= 1) in
+    (rejected /\ winsorize (DT := DOpt) m p (enc_opt xs) = Ok None) \/
+    (~ rejected /\ exists r, winsorize (DT := DOpt) m p (enc_opt xs) = Ok (Some r) /\
+                             (r = xs \/ exists lo hi, r = clip_series lo hi xs)).
+Proof. intros m p xs. rewrite winsorize_opt. exact (winsorize_total_xr m p xs). Qed.
+
+Theorem C20_winsorize_every_parameter_i32 :
+  forall (m : wmethod) (p : option XR) (zs : list Z),
+    let rejected := m = WQuantile /\ (weff m p = None \/ exists q, weff m p = Some q /\ ~ 0 <= q <= 1) in
+    (rejected /\ winsorize (DT := DInt) m p (cast_i32 zs) = Ok None) \/
+    (~ rejected /\ exists r, winsorize (DT := DInt) m p (cast_i32 zs) = Ok (Some r) /\
+                             (r = cast_i32 zs \/ exists lo hi, r = clip_series lo hi (cast_i32 zs))).
+Proof. intros m p zs. rewrite winsorize_i32. exact (winsorize_total_xr m p (cast_i32 zs)). Qed.
+Local Close Scope R_scope.
+
+Theorem C20_sigma_single_valid_is_min_periods_branch :
+  forall {A : Type} {NA : Num A} {NF : NumFloor A} {T : Type} {DT : IsNone T A} (p : option A) (xs : list T),
+    nisnan (nnan : A) = true -> length (vals xs) < 2 ->
+    Agg.vmean_var (@idA A) 2 xs = (nnan, nnan) /\ winsorize WSigma p xs = Ok (Some (iter_cast xs)).
+Proof.
+  intros A NA NF T DT p xs Hnan H. split; [apply vmean_var_mp2_short; exact H|apply winsorize_sigma_short; assumption].
+Qed.
+
+Example C20_ex_sigma_single_valid :
+  length (vals (DT := IsNoneXR) [None; Some 2%R; None]) < 2.
+Proof. cbn. lia. Qed.
+
+(* ================================ non-vacuity (audit theorems) ======================================== *)
+(* binary64 satisfies the order laws (FloatAxioms.{ltb,leb,eqb}_spec) and its NaN tests as NaN *)
+Example C20_ex_ordered_carrier : OrdLaws float /\ nisnan (nnan : float) = true.
+Proof. split; [exact ordlaws_F64|reflexivity]. Qed.
+
+Example C20_ex_reversed_scope : wparam_reversed WQuantile 1 /\ wparam_reversed WMedian (-1) /\ wparam_reversed WSigma (-1 / 2).
+Proof. cbn. lra. Qed.
+
+Local Close Scope R_scope.
+
+(* both cases of C20_half_life_any_oracle occur; an oracle that is true beyond len but fails on the doubling sequence is fine *)
+Example C20_ex_any_oracle :
+  half_life (fun _ => true) 3 = Some (Panic Underflow) /\
+  half_life (fun k => negb (k =? 2)) 3 = Some (Ok 2) /\ first_fail (fun k => negb (k =? 2)) 1 /\
+  half_life (fun k => k <? 0) 5 = Some (Ok 1).
+Proof.
+  split; [reflexivity|]. split; [reflexivity|]. split; [|reflexivity].
+  split; [reflexivity|]. intros i Hi. destruct i; [reflexivity|lia].
+Qed.
+
+(* binary64 examples (float literals need the PrimFloat notations) *)
+Import PrimFloat.
+(* the binary64 run of C20_ex_winsorize_quantile: hypothesis of C20_winsorize_returns / _binary64 *)
+Example C20_ex_winsorize_binary64 :
+  winsorize (DT := IsNoneF64) (NF := Run.RunC12.NumFloorF64) WQuantile (Some 0.5%float) [4%float; PrimFloat.nan; 1%float; 2%float]
+  = Ok (Some [2%float; PrimFloat.nan; 2%float; 2%float]).
+Proof. vm_compute. reflexivity. Qed.
+
+Example C20_ex_clip_inside : clipA (1%float) (3%float) (2%float) = 2%float /\ clipA PrimFloat.nan PrimFloat.nan (7%float) = 7%float.
+Proof. split; vm_compute; reflexivity. Qed.
+
+Example C20_ex_half_life_binary64 :
+  half_life_exec (DT := IsNoneF64) Run.RunC20.mF (Some 1) [1%float; 2%float; 4%float; 8%float; 9%float; 12%float] = Some (Ok 5).
+Proof. vm_compute. reflexivity. Qed.
+
 Print Assumptions C20_winsorize_quantile.
 Print Assumptions C20_winsorize_median.
 Print Assumptions C20_winsorize_sigma.
@@ -798,3 +1197,36 @@ Print Assumptions C20_autocorr_textbook.
 Print Assumptions C20_autocorr_defined_iff_enough_pairs.
 Print Assumptions C20_above_half_iff.
 Print Assumptions C20_autocorr_all_valid.
+Print Assumptions C20_winsorize_shape.
+Print Assumptions C20_winsorize_returns.
+Print Assumptions C20_winsorize_keeps_nulls.
+Print Assumptions C20_winsorize_sigma_never_fails.
+Print Assumptions C20_clip_inside_unchanged.
+Print Assumptions C20_clip_ordered_carrier.
+Print Assumptions C20_winsorize_order_preserving_ordered.
+Print Assumptions C20_winsorize_binary64.
+Print Assumptions C20_winsorize_every_parameter.
+Print Assumptions C20_winsorize_quantile_any_q.
+Print Assumptions C20_winsorize_median_any_k.
+Print Assumptions C20_winsorize_sigma_any_k.
+Print Assumptions C20_winsorize_nan_parameter.
+Print Assumptions C20_winsorize_reversed_scope.
+Print Assumptions C20_winsorize_scope_needed.
+Print Assumptions C20_half_life_any_oracle.
+Print Assumptions C20_half_life_panics_iff.
+Print Assumptions C20_half_life_oracle_hypothesis_needed.
+Print Assumptions C20_half_life_oracle_threshold_any_L.
+Print Assumptions C20_autocorr_beyond_length_any_carrier.
+Print Assumptions C20_half_life_total_any_carrier.
+Print Assumptions C20_half_life_threshold_any_carrier.
+Print Assumptions C20_half_life_probe_sequence_any_carrier.
+Print Assumptions C20_half_life_int_none_panics_any_carrier.
+Print Assumptions C20_half_life_binary64.
+Print Assumptions C20_vcorr_pearson_arm.
+Print Assumptions C20_vcorr_pearson_arm_truncates.
+Print Assumptions C20_vcorr_pearson_textbook.
+Print Assumptions C20_vcorr_pearson_textbook_opt.
+Print Assumptions C20_vcorr_pearson_textbook_i32.
+Print Assumptions C20_winsorize_every_parameter_opt.
+Print Assumptions C20_winsorize_every_parameter_i32.
+Print Assumptions C20_sigma_single_valid_is_min_periods_branch.
